@@ -842,6 +842,16 @@ def join_term(ctx, p, sep, seq):
     p.note("str.join over a symbolic list: uninterpreted with unit/empty instances")
     p.assume(z3.Implies(z3.Length(seq) == 0, t == z3.StringVal("")))
     p.assume(z3.Implies(z3.Length(seq) == 1, t == V.s(smt.nth(seq, 0))))
+    # join(sep, xs ++ [x]) == join(sep, xs) + sep + x   (x alone when xs is empty)
+    sq = simp(seq)
+    if z3.is_app(sq) and sq.decl().kind() == z3.Z3_OP_SEQ_CONCAT:
+        ch = sq.children()
+        last = ch[-1]
+        if z3.is_app(last) and last.decl().kind() == z3.Z3_OP_SEQ_UNIT:
+            rest = ch[:-1]
+            rest_t = rest[0] if len(rest) == 1 else z3.Concat(*rest)
+            x = V.s(last.arg(0))
+            p.assume(z3.If(z3.Length(rest_t) == 0, t == x, t == z3.Concat(j(sep, rest_t), sep, x)))
     return t
 
 
